@@ -154,4 +154,137 @@ fn c13_float2dec__rounds_half_away_from_zero__nat() {
     assert!(cases == 4 * 8001 * 2 && ties > 3000);
 }
 
+// C02 / C13 (bounded stand-in, native; NOT a proof): nested casts through floating point types.  Flattening
+// CAST(CAST(x AS mid) AS to) into CAST(x AS to) is only an identity when the inner cast loses nothing; REAL in the middle
+// rounds to 24 bits of mantissa.  For sources DOUBLE / REAL / BIGINT / INT, middle and target types REAL / DOUBLE / BIGINT
+// / INT and 20 values (not exact in f32: 0.1, 16777217, 1e-40, 123456789.125; exact: 0.5, 2^24; boundaries and
+// fractions for the integer targets) the value produced by the constructor's (possibly flattened) expression equals
+// the value of the two casts applied one after the other with Rust's `as` conversions as the reference for float
+// -> float / int -> float, and "truncate toward zero or fail when out of range" for float -> int.
+#[test]
+fn c02c13_nested_cast_float__same_as_two_casts__nat() {
+    #[derive(Clone, Copy, Debug, PartialEq)]
+    enum F {
+        F32,
+        F64,
+        I32,
+        I64,
+    }
+    #[derive(Clone, Copy, Debug, PartialEq)]
+    enum V {
+        F32(f32),
+        F64(f64),
+        I32(i32),
+        I64(i64),
+    }
+    fn dt(t: F) -> DataType {
+        match t {
+            F::F32 => DataType::float32(),
+            F::F64 => DataType::float64(),
+            F::I32 => DataType::int32(),
+            F::I64 => DataType::int64(),
+        }
+    }
+    // reference single cast: None = must fail
+    fn cast1(v: V, to: F) -> Option<V> {
+        let as_f64 = match v {
+            V::F32(x) => x as f64,
+            V::F64(x) => x,
+            V::I32(x) => x as f64,
+            V::I64(x) => x as f64,
+        };
+        Some(match (v, to) {
+            (V::F32(x), F::F32) => V::F32(x),
+            (V::F64(x), F::F32) => V::F32(x as f32),
+            (V::I32(x), F::F32) => V::F32(x as f32),
+            (V::I64(x), F::F32) => V::F32(x as f32),
+            (_, F::F64) => V::F64(as_f64),
+            (V::I32(x), F::I32) => V::I32(x),
+            (V::I64(x), F::I32) => V::I32(i32::try_from(x).ok()?),
+            (V::I32(x), F::I64) => V::I64(x as i64),
+            (V::I64(x), F::I64) => V::I64(x),
+            (V::F32(_) | V::F64(_), F::I32) => {
+                let t = as_f64.trunc();
+                if !t.is_finite() || t < i32::MIN as f64 || t > i32::MAX as f64 {
+                    return None;
+                }
+                V::I32(t as i32)
+            }
+            (V::F32(_) | V::F64(_), F::I64) => {
+                let t = as_f64.trunc();
+                if !t.is_finite() || t < -9223372036854775808.0 || t >= 9223372036854775808.0 {
+                    return None;
+                }
+                V::I64(t as i64)
+            }
+        })
+    }
+    fn lit(v: V) -> Expression {
+        match v {
+            V::F32(x) => crate::expr::lit(ScalarValue::Float32(x)).into(),
+            V::F64(x) => crate::expr::lit(ScalarValue::Float64(x)).into(),
+            V::I32(x) => crate::expr::lit(ScalarValue::Int32(x)).into(),
+            V::I64(x) => crate::expr::lit(ScalarValue::Int64(x)).into(),
+        }
+    }
+    fn out(v: &ScalarValue) -> Option<V> {
+        Some(match v {
+            BorrowedScalarValue::Float32(x) => V::F32(*x),
+            BorrowedScalarValue::Float64(x) => V::F64(*x),
+            BorrowedScalarValue::Int32(x) => V::I32(*x),
+            BorrowedScalarValue::Int64(x) => V::I64(*x),
+            _ => return None,
+        })
+    }
+    let f64s = [0.1f64, 16777217.0, 1e-40, 123456789.125, 0.5, 16777216.0, -0.1, 2.5, -2.5, 3.999, 2147483647.5, 2147483648.0, -2147483648.9, 9.3e18, 1e300, -1e300, 0.0, 1.0, 4294967296.5, 33554433.0];
+    let mut sources: Vec<V> = Vec::new();
+    for x in f64s {
+        sources.push(V::F64(x));
+        sources.push(V::F32(x as f32));
+    }
+    for x in [0i64, 1, -1, 16777217, 33554433, 2147483647, 2147483648, -2147483649, 9007199254740993, i64::MAX, i64::MIN] {
+        sources.push(V::I64(x));
+        if let Ok(y) = i32::try_from(x) {
+            sources.push(V::I32(y));
+        }
+    }
+    let types = [F::F32, F::F64, F::I32, F::I64];
+    let (mut cases, mut flattened) = (0usize, 0usize);
+    for &src in &sources {
+        let finite = match src {
+            V::F32(x) => x.is_finite(),
+            V::F64(x) => x.is_finite(),
+            _ => true,
+        };
+        if !finite {
+            continue; // 1e300 as f32 is inf: not a source we want
+        }
+        for mid in types {
+            for to in types {
+                let inner = CastExpr::new_using_default_casts(lit(src), dt(mid)).unwrap();
+                let outer = CastExpr::new_using_default_casts(Expression::Cast(inner), dt(to)).unwrap();
+                if !matches!(outer.expr.as_ref(), Expression::Cast(_)) {
+                    flattened += 1;
+                }
+                let got = ConstFold::rewrite(Expression::Cast(outer)).and_then(|e| e.try_into_scalar());
+                let want = cast1(src, mid).and_then(|m| cast1(m, to));
+                // float -> float overflow to infinity: `as` gives inf, the engine may give inf or fail; not decided here
+                let inf_involved = matches!(cast1(src, mid), Some(V::F32(x)) if x.is_infinite()) || matches!(want, Some(V::F32(x)) if x.is_infinite());
+                if inf_involved {
+                    continue;
+                }
+                match (&got, want) {
+                    (Ok(v), Some(w)) => assert!(out(v) == Some(w), "CAST(CAST({src:?} AS {mid:?}) AS {to:?}) = {v}, the two casts one after the other give {w:?}"),
+                    (Err(_), None) => (),
+                    (Ok(v), None) => panic!("CAST(CAST({src:?} AS {mid:?}) AS {to:?}) returns {v} although one of the two casts must fail"),
+                    (Err(e), Some(w)) => panic!("CAST(CAST({src:?} AS {mid:?}) AS {to:?}) fails ({}) although the two casts give {w:?}", e.to_string().lines().next().unwrap_or("")),
+                }
+                cases += 1;
+            }
+        }
+    }
+    assert!(cases > 700, "{cases}");
+    assert!(flattened > 50, "the constructor flattened only {flattened} nested casts");
+}
+
 include!("/verif/build/kani-gen/cast_expr.playback.rs");
